@@ -126,6 +126,24 @@ def run_case(case):
                 for s in sides:
                     getattr(BC, s).periodic = True
                 return pf.CellVariable(m, 1.0, BC)
+            if entry.startswith('later-'):
+                # the flag is set in the middle of a run: valid steps first (everything assembled, flags clean), then the request,
+                # then the next step - on an ordinary variable, on one returned by the explicit solver, on one without pre-computed
+                # boundary term
+                if entry == 'later-noprecalc':
+                    phi = pf.CellVariable(m, 1.0, BC, BCsTerm_precalc=False)
+                else:
+                    phi = pf.CellVariable(m, 1.0, BC)
+                D1 = pf.FaceVariable(m, 1.0)
+                pf.solvePDE(phi, [pf.transientTerm(phi, 1.0, 1.0), -pf.diffusionTerm(D1)])
+                if entry == 'later-explicit':
+                    phi = pf.solveExplicitPDE(phi, 1e-4, pf.divergenceTerm(D1 * pf.gradientTerm(phi)))
+                    pf.solvePDE(phi, [pf.transientTerm(phi, 1.0, 1.0), -pf.diffusionTerm(D1)])
+                pf.boundaryConditionsTerm(phi.BCs)
+                for s in sides:
+                    getattr(phi.BCs, s).periodic = True
+                pf.solvePDE(phi, [pf.transientTerm(phi, 1.0, 1.0), -pf.diffusionTerm(D1)])
+                return phi
             phi = pf.CellVariable(m, 1.0, BC)
             for s in sides:
                 getattr(phi.BCs, s).periodic = True
@@ -262,6 +280,11 @@ def run_case(case):
                 for kk in AXKIND[cls]:
                     Ls.append({'len': 1.5, 'rad': 2.0, 'ang': 2 * math.pi, 'pol': math.pi}[kk])
                 m = getattr(pf, cls)(*(list(n) + Ls))
+            if case.get('order') == 'locations-first':
+                # the "variables in space" tutorial order: location variables of the mesh first, everything else afterwards
+                pf.cellLocations(m)
+                pf.faceLocations(m)
+                m.cellvolume
             phi = pf.CellVariable(m, 1.0)
             phi.BCs.left.fixedValue(2.0)
             D = pf.FaceVariable(m, 1.0)
@@ -305,7 +328,7 @@ def plan(tier, seed):
         sides = [s for k in range(nd) for s in SIDES[k]]
         for r in range(1, len(sides) + 1):
             for sub in itertools.combinations(sides, r):
-                for entry in ('ctor', 'apply', 'solve'):
+                for entry in ('ctor', 'apply', 'solve') + (('later-plain', 'later-explicit', 'later-noprecalc') if r <= 2 else ()):
                     cases.append({'kind': 'periodic', 'cls': cls, 'sides': list(sub), 'entry': entry})
         # shapes
         for n in ([[2, 3, 2][:nd], [3, 3, 3][:nd], [1, 1, 1][:nd], [1, 2, 3][:nd]]):
@@ -357,6 +380,7 @@ def plan(tier, seed):
                 continue
             for form in ('faces', 'NL'):
                 cases.append({'kind': 'valid', 'cls': cls, 'n': list(n), 'form': form})
+                cases.append({'kind': 'valid', 'cls': cls, 'n': list(n), 'form': form, 'order': 'locations-first'})
     for what in ('list', 'float', 'int', 'none', 'tuple', 'str', 'npfloat64', 'npfloat32', 'npint64', 'npbool', 'arr.mean()', 'arr[0]'):
         for pos in range(3):
             cases.append({'kind': 'bcface', 'what': what, 'pos': pos})
